@@ -21,7 +21,7 @@ func VRun(dir string, cfg *telemetry.UploadConfig, configVersion, uploadURL stri
 		configVersion:   configVersion,
 		dir:             telemetry.NewDir(dir),
 		uploadServerURL: uploadURL,
-		startTime:       start,
+		startTime:       RunConfig{StartTime: start}.startTime(), // as newUploader does
 		logger:          log.New(io.Discard, "", 0),
 	}
 	return u.Run()
